@@ -283,6 +283,20 @@ let handle (fields : string list) : string =
      | NeedTarget -> "needtarget"
      | BadPick -> "badpick"
      | OutOfFuel -> "outoffuel")
+  | [ "stoch"; raw; valid ] ->
+    let vs = List.map unhex (split_nonempty ',' valid) in
+    let valid_atom (t : str) = List.mem (implode t) vs in
+    (match parse_stoch valid_atom (explode (unhex raw)) with
+     | Err (e, _) -> "ERR " ^ err_name e
+     | OK s ->
+       let fam = function FFlorySchulz -> "flory_schulz" | FGauss -> "gauss" | FUniform -> "uniform" | FSchulzZimm -> "schulz_zimm"
+                        | FLogNormal -> "log_normal" | FPoisson -> "poisson" in
+       let toks l = String.concat "," (List.map (fun t -> hex (implode (print_token fprint true t))) l) in
+       Printf.sprintf "OK left=%s right=%s rep=%s end=%s nbds=%d bds=%s dist=%s gen=%s"
+         (hex (implode (print_descr fprint true s.ps_left))) (hex (implode (print_descr fprint true s.ps_right)))
+         (toks s.ps_rep) (toks s.ps_end) (List.length s.ps_bds) (String.concat ";" (List.map show_descr s.ps_bds))
+         (match s.ps_dist with None -> "none" | Some (f, t) -> fam f ^ ":" ^ hex (implode t))
+         (if stoch_generable s then "T" else "F"))
   | [ "token"; raw; off; valid ] ->
     (* valid: comma separated hex of the bracket atoms RDKit accepts *)
     let vs = List.map unhex (split_nonempty ',' valid) in
